@@ -40,8 +40,8 @@ func (k *check) concurrencyJobs() (jobs, post []func()) {
 	cc = &concState{payloadsSeen: map[string]int{}}
 	mocks, srcs := k.concPayloads()
 	jobs = append(jobs,
-		func() { k.concRun("processes-mock", mocks, 16, 16, 50) },
-		func() { k.concRun("processes-sources", srcs, k.c.N(8, 16), k.c.N(8, 16), k.c.N(25, 50)) })
+		func() { k.concRun("processes-mock", mocks, k.c.N(8, 16), k.c.N(8, 16), 50) },
+		func() { k.concRun("processes-sources", srcs, k.c.N(4, 16), k.c.N(4, 16), k.c.N(25, 50)) })
 	return
 }
 
